@@ -256,6 +256,9 @@ func strip(v ssa.Value) ssa.Value {
 		case *ssa.ChangeType:
 			v = x.X
 		case *ssa.Convert:
+			if narrowingConv(x) {
+				return v
+			}
 			v = x.X
 		case *ssa.MultiConvert:
 			v = x.X
